@@ -513,7 +513,10 @@ class Closing(State):
     def run(self) -> None:
         self.set_closing_state(set_name=True)
 
-        if self.has_recv_queue_message():
+        if self.is_set_release_signal_from_peer():
+            self.event_peer_disc()
+
+        elif self.has_recv_queue_message():
             self.msg = self.get_message()
 
             self.make_default_logging()
@@ -524,6 +527,12 @@ class Closing(State):
 
     def event_rcv_dpa(self) -> None:
         open_logger.debug("Event has been triggered.")
+
+        self.set_closed_state(force=True)
+
+
+    def event_peer_disc(self) -> None:
+        closing_logger.debug("Event has been triggered.")
 
         self.set_closed_state(force=True)
 
